@@ -249,7 +249,7 @@ impl Gen<'_> {
         }
         let x = if cks.is_empty() { "-".to_owned() } else { cks.join(",") };
         let l = if k.ends_with('/') && self.rng.chance(1, 2) { len.to_string() } else { "-".to_owned() };
-        // (since 4f3e079 a key whose side files cannot be named is refused before anything is written)
+        // (since c3dcb24 a key whose side files cannot be named is refused before anything is written)
         if all_ok && !side_too_long(&b, &k) {
             self.sim.maybe.insert(pair.clone());
             if let Some(objs) = self.sim.buckets.get_mut(&b) {
@@ -565,7 +565,7 @@ impl Gen<'_> {
             Some(i) => {
                 let (owner, b, k) = (self.sim.ups[i].owner, self.sim.ups[i].bucket.clone(), self.sim.ups[i].key.clone());
                 let w = if self.rng.chance(4, 5) { owner } else { self.who() };
-                // (since 6bf591c an upload exists only under its own bucket and key — `NoSuchUpload` under any other, nothing
+                // (since 41e1cf2 an upload exists only under its own bucket and key — `NoSuchUpload` under any other, nothing
                 // changes: a clean history may address it under another one)
                 if self.f_mpabuse && self.rng.chance(1, 8) {
                     (w, self.bucket(true), self.key())
